@@ -17,12 +17,14 @@ class DocSpec(object):
     def __init__(self, layout, markers):
         self.layout = layout          # 'google' | 'freeform' | 'none'
         self.markers = markers        # one per block / group, in order
+        self.tails = {}               # block marker -> marker of a second group of the same block, behind two empty lines
 
 
 def docstring_lines(rng, ind, uid, nblocks, layout, quote='"""', first_line_prose=True):
     """lines of a docstring literal whose example blocks print unique markers"""
     L = [ind + quote + ('Summary %s.' % uid if first_line_prose else ''), '']
     markers = []
+    tails = {}
     if layout == 'google':
         opening_header = rng.random() < 0.15
         # one docstring in six spells ALL its headers the other accepted ways (a double colon, a blank before the colon)
@@ -39,6 +41,10 @@ def docstring_lines(rng, ind, uid, nblocks, layout, quote='"""', first_line_pros
             if opening_header and b == 0:
                 head = ind + quote + head.strip()
             L += [head, ind + '    >>> print("%s")' % m, ind + '    %s' % m, '']
+            if rng.random() < 0.2 and not (opening_header and b == 0):
+                # the block goes on behind two (or three) empty lines: a second group of the same block
+                tails[m] = m + '77'
+                L += [''] * rng.choice([1, 1, 2]) + [ind + '    >>> print("%s")' % tails[m], ind + '    %s' % tails[m], '']
             if rng.random() < 0.3:
                 L += [ind + ln for ln in rng.choice(OTHER_BLOCKS[1:])] + ['']
     elif layout == 'freeform':
@@ -48,6 +54,7 @@ def docstring_lines(rng, ind, uid, nblocks, layout, quote='"""', first_line_pros
             L += [ind + '>>> print("%s")' % m, ind + m, '', ind + 'prose between groups', '']
     L.append(ind + quote)
     ds = DocSpec(layout, markers)
+    ds.tails = tails
     ds.opening_header = layout == 'google' and opening_header
     ds.alt_tags = layout == 'google' and bool(alt_tags)
     return L, ds
@@ -85,8 +92,10 @@ class ModuleGen(object):
                 self.spec.features.add('google-header-on-the-opening-line')
             if getattr(ds, 'alt_tags', False):
                 self.spec.features.add('google-headers-in-other-spellings')
+        if ds.tails:
+            self.spec.features.add('google-block-goes-on-behind-empty-lines')
         if forbid is not None:
-            for m in ds.markers:
+            for m in list(ds.markers) + list(ds.tails.values()):
                 self.spec.forbidden[m] = forbid
         return ds
 
@@ -312,11 +321,11 @@ def expected_collection(spec, style):
         if style == 'google' or (style == 'auto' and ds.layout == 'google'):
             if ds.layout == 'google':
                 for b, m in enumerate(ds.markers):
-                    exp[(cn, b)] = frozenset([m])
+                    exp[(cn, b)] = frozenset([m] + ([ds.tails[m]] if m in ds.tails else []))
         else:
             # freeform: one doctest per docstring holding every group
             if ds.markers:
-                exp[(cn, 0)] = frozenset(ds.markers)
+                exp[(cn, 0)] = frozenset(list(ds.markers) + list(ds.tails.values()))
     return exp
 
 
